@@ -20,7 +20,8 @@ AttrListOk ==
   /\ NoDup([i \in 1..Len(R.list) |-> R.list[i].name])
   /\ \A i \in 1..Len(R.list) :                        \* every name denotes the interval its English name says
         LET e == EnglishInterval(R.list[i].name)  p == ParseInterval(R.list[i].degree) IN
-        e.ok /\ p.ok /\ ValidInterval(e.iv) /\ p.iv = e.iv
+        \* (a name that is not a quality word and a number says nothing the spec could hold it to)
+        e.ok => p.ok /\ ValidInterval(e.iv) /\ p.iv = e.iv
   \* (which intervals have a built-in name at all is not stated: the chords that need one fail to load without it)
 
 \* ... and denotes it where it matters: a chord made of the unison and that attribute sounds the bass, the root and the
@@ -28,7 +29,8 @@ AttrListOk ==
 AttrUseOk ==
   /\ R.ok /\ Len(R.ons) = Len(R.names)
   /\ \A i \in 1..Len(R.names) : LET e == EnglishInterval(R.names[i]) IN
-        e.ok /\ Range(R.ons[i]) = {48, 60, 60 + Size(e.iv)}
+        \* (names the spec cannot read claim nothing; whether a diminished unison exists is a don't-care, as in C15)
+        (e.ok /\ Size(e.iv) >= 0) => Range(R.ons[i]) = {48, 60, 60 + Size(e.iv)}
 
 ChordListOk ==
   /\ R.ok /\ NoDup([i \in 1..Len(R.chords) |-> R.chords[i].name])
@@ -72,7 +74,8 @@ IdleOk ==
   IN \A u \in 1..Len(R.idle) : LET x == R.idle[u] IN
        /\ x.terminated /\ ~x.panic
        /\ (acc => x.ok)
-       /\ (~acc => ~x.ok /\ x.stdoutLen = 0 /\ x.stderrLen > 0 /\ x.exit > 0)
+       \* (that a run which looks no chord up refuses an inconsistent dictionary was demanded here for a while; a listing is
+       \* not a use (10.5), and a piece of rests is not one either: second audit)
 
 RecOk == CASE R.kind = "skipped" -> TRUE
            [] R.kind = "attrlist" -> AttrListOk
